@@ -33,17 +33,14 @@ def is_self_attr(node, selfname="self"):
 
 
 def walk_no_nested(node):
-    """ast.walk that does not descend into nested function/class definitions
-    or lambdas (the node itself is yielded even if it is one)."""
-    todo = [node]
-    first = True
-    while todo:
-        n = todo.pop()
-        yield n
-        for c in ast.iter_child_nodes(n):
-            if isinstance(c, (ast.FunctionDef, ast.AsyncFunctionDef, ast.ClassDef, ast.Lambda)):
-                continue
-            todo.append(c)
+    """Pre-order, source-order walk that does not descend into nested
+    function/class definitions or lambdas (the root itself is yielded even if
+    it is one)."""
+    yield node
+    for c in ast.iter_child_nodes(node):
+        if isinstance(c, (ast.FunctionDef, ast.AsyncFunctionDef, ast.ClassDef, ast.Lambda)):
+            continue
+        yield from walk_no_nested(c)
 
 
 def body_nodes(fn_node):
